@@ -121,9 +121,8 @@ package zoekt
 //@   ensures result1 == nil ==> result0 != nil
 //@   assigns nothing
 
-// Plain field-by-field copy into a fresh struct (nil for nil).
+// Plain field-by-field copy into a fresh struct (nil for nil). Verified.
 //@ func zoekt.SearchOptionsFromProto
-//@   trusted
 //@   ensures p != nil ==> result != nil
 //@   assigns nothing
 
